@@ -1,9 +1,104 @@
-(* C13 — calls bind arguments exactly as CPython does.  Property theorems only. *)
+(* C13 — calls bind arguments exactly as CPython does.
+   Property theorems only; each is closed by [exact] and followed by Print Assumptions.
+
+   Model (coq/Bind/Model.v): bind_py = SignedFunction._map_args as it stands, bind_py_fixed = the same
+   with fixes/C13-posonly-kwargs.patch, bind_c = CPython's initialize_locals.  [agree s r1 r2]: both are
+   errors, or both succeed and every parameter of s (incl. *args and **kwargs) is bound and holds the
+   same thing (Pos i / Kw k / Default / VarArgs [..] / KwArgs [..]).  wf_sig = a def Python accepts
+   (distinct parameter names, defaults form a suffix of the positional parameters); wf_shape = a call
+   Python accepts (no repeated keyword).  All statements are for signatures and calls of any size. *)
 From Coq Require Import List Arith Bool.
 From PV Require Import Bind.Model Bind.Proofs.
 Import ListNotations.
 
+(* The repaired mapper binds exactly as CPython does. *)
+Theorem bind_agree_fixed :
+  forall s c, wf_sig s -> wf_shape c -> agree s (bind_py_fixed s c) (bind_c s c).
+Proof. exact bind_agree_fixed_lemma. Qed.
+Print Assumptions bind_agree_fixed.
+
+(* The mapper as it stands does not: def f(x, /, **kw); f(x=1) is accepted, CPython raises TypeError ... *)
 Theorem bind_agree_refuted :
-  exists s c, wf_sig s /\ wf_shape c /\ ~ agree s (bind_py s c) (bind_c s c).
+  exists s c, wf_sig s /\ wf_shape c /\ is_err (bind_py s c) = false /\ is_err (bind_c s c) = true
+              /\ ~ agree s (bind_py s c) (bind_c s c).
 Proof. exact bind_agree_refuted_lemma. Qed.
 Print Assumptions bind_agree_refuted.
+
+(* ... and f(a0, x=1) binds x to the keyword and leaves kw empty; CPython binds x = a0, kw = {x: ..}. *)
+Theorem bind_agree_refuted_binding :
+  exists s c, wf_sig s /\ wf_shape c /\ is_err (bind_py s c) = false /\ is_err (bind_c s c) = false
+              /\ lookup_all s (bind_py s c) = Some [Some (Kw 0); Some (KwArgs [])]
+              /\ lookup_all s (bind_c s c) = Some [Some (Pos 0); Some (KwArgs [0])]
+              /\ ~ agree s (bind_py s c) (bind_c s c).
+Proof. exact bind_agree_refuted_binding_lemma. Qed.
+Print Assumptions bind_agree_refuted_binding.
+
+(* It does agree whenever the function has no **kwargs or no keyword names a positional-only parameter. *)
+Theorem bind_agree_partial :
+  forall s c, wf_sig s -> wf_shape c ->
+  (kwargs s = None \/ forall k, In k (kws c) -> ~ In k (posonly s)) ->
+  agree s (bind_py s c) (bind_c s c).
+Proof. exact bind_agree_partial_lemma. Qed.
+Print Assumptions bind_agree_partial.
+
+(* That boundary is exact: outside it, every call the mapper accepts is bound differently from CPython ... *)
+Theorem bind_disagree_exact :
+  forall s c d, wf_sig s -> wf_shape c ->
+  kwargs s <> None -> (exists k, In k (kws c) /\ In k (posonly s)) ->
+  bind_py s c = Ok d -> ~ agree s (bind_py s c) (bind_c s c).
+Proof. exact bind_disagree_exact_lemma. Qed.
+Print Assumptions bind_disagree_exact.
+
+(* ... so agreement holds iff: no **kwargs, or no keyword names a positional-only parameter, or the mapper
+   raises (then CPython raises too). *)
+Theorem bind_agree_boundary :
+  forall s c, wf_sig s -> wf_shape c ->
+  (agree s (bind_py s c) (bind_c s c) <->
+   (kwargs s = None \/ (forall k, In k (kws c) -> ~ In k (posonly s)) \/ is_err (bind_py s c) = true)).
+Proof. exact bind_agree_boundary_lemma. Qed.
+Print Assumptions bind_agree_boundary.
+
+(* One direction holds for the mapper as it stands without any restriction: a reported arity/keyword
+   error is always a CPython TypeError. *)
+Theorem bind_err_sound :
+  forall s c, wf_sig s -> wf_shape c -> is_err (bind_py s c) = true -> is_err (bind_c s c) = true.
+Proof. exact bind_err_sound_lemma. Qed.
+Print Assumptions bind_err_sound.
+
+(* Non-vacuity.  def g(a, b=.., /, d=.., *va, g, h=.., **kw)  -- names a=0 b=1 d=3 va=9 g=6 h=7 kw=10 *)
+Definition sig_rich : sig := mkSig [0; 1] [3] [6; 7] [1; 3; 7] (Some 9) (Some 10).
+Example sig_rich_wf : wf_sig sig_rich.
+Proof. apply wf_sigb_sound. reflexivity. Qed.
+
+(* g(p0, p1, p2, p3, g=.., zz=..): binds, with overflow into *va and the foreign keyword into **kw;
+   the hypothesis of bind_agree_partial holds although **kw is present *)
+Example rich_call_ok :
+  let c := mkShape 4 [6; 11] in
+  wf_shape c /\ (forall k, In k (kws c) -> ~ In k (posonly sig_rich)) /\
+  lookup_all sig_rich (bind_py sig_rich c)
+    = Some [Some (Pos 0); Some (Pos 1); Some (Pos 2); Some (Kw 6); Some Default; Some (VarArgs [3]); Some (KwArgs [11])] /\
+  lookup_all sig_rich (bind_c sig_rich c) = lookup_all sig_rich (bind_py sig_rich c).
+Proof.
+  cbv zeta. split; [apply wf_shapeb_sound; reflexivity|]. split.
+  - simpl. intros k [H|[H|[]]] [H1|[H1|[]]]; subst; discriminate.
+  - vm_compute. split; reflexivity.
+Qed.
+
+(* g(p0, d=.., h=..): keyword-only g is missing -> both raise; g(p0, p1, p2, d=..): d given twice -> both raise *)
+Example rich_call_errors :
+  bind_py sig_rich (mkShape 1 [3; 7]) = Err (EMissingParameter 6) /\
+  bind_c sig_rich (mkShape 1 [3; 7]) = Err (CMissingKwonly [6]) /\
+  bind_py sig_rich (mkShape 3 [3; 6]) = Err (EDuplicateKeyword [3]) /\
+  bind_c sig_rich (mkShape 3 [3; 6]) = Err (CMultipleValues 3).
+Proof. vm_compute. repeat split; reflexivity. Qed.
+
+(* outside the boundary: g(p0, b=.., g=..) -- the mapper accepts and binds b to the keyword; CPython
+   gives b its default and puts b into **kw *)
+Example rich_call_outside_boundary :
+  let c := mkShape 1 [1; 6] in
+  lookup_all sig_rich (bind_py sig_rich c)
+    = Some [Some (Pos 0); Some (Kw 1); Some Default; Some (Kw 6); Some Default; Some (VarArgs []); Some (KwArgs [])] /\
+  lookup_all sig_rich (bind_c sig_rich c)
+    = Some [Some (Pos 0); Some Default; Some Default; Some (Kw 6); Some Default; Some (VarArgs []); Some (KwArgs [1])] /\
+  lookup_all sig_rich (bind_py_fixed sig_rich c) = lookup_all sig_rich (bind_c sig_rich c).
+Proof. vm_compute. repeat split; reflexivity. Qed.
